@@ -410,4 +410,242 @@ theorem dot11_step_pseudo (ps : List LayerInfo) (d : Dot11) (os : List AnyObj) (
   have hl2 : 2 ≤ out.length := by rw [hrest, List.length_append]; omega
   exact ⟨out, _, _, hwr, hol, parseOne_dot11_pseudo d.cls d.lay out d _ hside.2 hl2 (by rw [hb0]; exact hdisp) hp, rfl, hs⟩
 
+/-! ### RadioTap -/
+
+/-- what `RadioTap::write_serialization` leaves in its region: the header with the derived `it_len`, the options, the inner
+    chain's bytes untouched, and `trailer_size()` bytes behind them (the CRC-32 when there is an inner PDU) -/
+theorem radiotap_write_eq (cx : Ctx) (r : RadioTap) (hw : r.WF) (region : Bytes)
+    (hr : region.length = r.hdrSize + cx.innerSize + r.trl) :
+    ∃ tail, r.write cx region = .ok (Dot11.patch r.hdr 2 (OutCursor.leBytes 2 r.hdrSize) ++
+      (r.payload ++ ((region.drop r.hdrSize).take cx.innerSize ++ tail))) ∧ tail.length = r.trl := by
+  obtain ⟨t, ht, ht04⟩ := hw.trl
+  have htrl : r.trl = t := by simp only [RadioTap.trl, ht]
+  rw [htrl] at hr ⊢
+  generalize hh : Dot11.patch r.hdr 2 (OutCursor.leBytes 2 r.hdrSize) = hdr
+  have hhl : hdr.length = 4 := by rw [← hh, Dot11.patch_length]; exact hw.hdr
+  have hi : (OutCursor.ofRegion region).Inv := by simp [OutCursor.ofRegion, OutCursor.Inv]
+  have hall := Dot11.writeAll_spec [hdr, r.payload] (OutCursor.ofRegion region) hi
+    (by simp only [List.flatten_cons, List.flatten_nil, List.length_append, List.length_nil, hhl, OutCursor.ofRegion, RadioTap.hdrSize] at *; omega)
+  simp only [RadioTap.write, hh, hall, ht, bind, Out.bind]
+  simp only [OutCursor.ofRegion, List.nil_append, List.flatten_cons, List.flatten_nil, List.append_nil, List.length_append, hhl]
+  have hhs : r.hdrSize = 4 + r.payload.length := rfl
+  by_cases hcond : (decide (t > 0) && !cx.inners.isEmpty) = true
+  · simp only [hcond, ↓reduceIte]
+    have ht4 : t = 4 := by
+      rcases ht04 with h | h
+      · simp [h] at hcond
+      · exact h
+    have hrest : (List.drop (4 + r.payload.length) region).length = cx.innerSize + 4 := by
+      simp only [List.length_drop]; omega
+    have h1 : 0 + cx.innerSize ≤ (List.drop (4 + r.payload.length) region).length := by omega
+    simp only [rdN, h1, ↓reduceIte]
+    have hskip : ¬ cx.innerSize > region.length - (4 + r.payload.length) := by omega
+    simp only [OutCursor.skip, hskip, ↓reduceIte]
+    have hw1 : ¬ region.length - (4 + r.payload.length) - cx.innerSize < (OutCursor.leBytes 4
+        (crc32 (List.take cx.innerSize (List.drop 0 (List.drop (4 + r.payload.length) region))))).length := by
+      simp only [OutCursor.leBytes_length]; omega
+    have hw2 : ¬ (List.drop cx.innerSize (List.drop (4 + r.payload.length) region)).length < (OutCursor.leBytes 4
+        (crc32 (List.take cx.innerSize (List.drop 0 (List.drop (4 + r.payload.length) region))))).length := by
+      simp only [OutCursor.leBytes_length, List.length_drop]; omega
+    simp only [OutCursor.write, hw1, hw2, ↓reduceIte, Out.pure_eq, OutCursor.buffer]
+    simp only [List.append_assoc, hhs]
+    refine ⟨_, rfl, ?_⟩
+    simp only [List.length_append, OutCursor.leBytes_length, List.length_drop]; omega
+  · simp only [hcond, Bool.false_eq_true, ↓reduceIte, Out.pure_eq, OutCursor.buffer]
+    refine ⟨(region.drop (4 + r.payload.length)).drop cx.innerSize, ?_, ?_⟩
+    · rw [hhs, List.take_append_drop, List.append_assoc]
+    · simp only [List.length_drop]; omega
+
+/-- what `trailer_size()` having a value says about the present-word walk: both loops succeed, and when the walk stands on
+    a field it is the one-byte FLAGS field inside the options, whose FCS bit decides between 4 and 0 -/
+theorem trlOut_inv (r : RadioTap) (t : Nat) (h : r.trlOut = .ok t) :
+    ∃ p0 p, RtParser.init r.payload = .ok p0 ∧ RtParser.skipToField RtParser.skipFuel p0 1 = .ok p ∧
+      (p.hasFields = false → t = 0) ∧
+      (p.hasFields = true → ∃ fv, r.payload[p.ptr]? = some fv ∧ t = if fv.toNat / 16 % 2 == 1 then 4 else 0) := by
+  unfold RadioTap.trlOut at h
+  rcases bind_ok_inv h with ⟨p0, h0, h⟩
+  rcases bind_ok_inv h with ⟨p, h1, h⟩
+  refine ⟨p0, p, h0, h1, ?_, ?_⟩
+  · intro hf
+    rw [hf] at h
+    simp only [Bool.false_eq_true, if_false] at h
+    injection h with h; exact h.symm
+  · intro hf
+    rw [hf] at h
+    simp only [if_true] at h
+    split at h
+    · cases h
+    · rename_i hle
+      rcases bind_ok_inv h with ⟨v, hv, h⟩
+      unfold rdN at hv
+      split at hv
+      · rename_i hle2
+        injection hv with hv
+        split at h
+        · cases h
+        · rename_i hl1
+          have hl : v.length = 1 := by simpa using hl1
+          have hvl := hl
+          rw [← hv, List.length_take, List.length_drop] at hvl
+          have hptr : p.ptr < r.payload.length := by omega
+          refine ⟨r.payload[p.ptr], by simp [hptr], ?_⟩
+          have hb : Wifi.byteAt v 0 = (r.payload[p.ptr]).toNat := by
+            rw [← hv]
+            have : (List.take (rtSize p.bit) (List.drop p.ptr r.payload)).getD 0 0 = r.payload[p.ptr] := by
+              rw [List.getD_eq_getElem?_getD, List.getElem?_take]
+              have : 0 < rtSize p.bit := by omega
+              simp [this, hptr]
+            simp only [Wifi.byteAt, this]
+          rw [hb] at h
+          split at h <;> (injection h with h; rw [← h])
+          · rename_i hc; rw [if_pos hc]
+          · rename_i hc; rw [if_neg hc]
+      · cases hv
+
+
+/-- the header `RadioTap::write_serialization` stores: `it_len` = `header_size()` -/
+def rtHdrFor (r : RadioTap) : Bytes := Dot11.patch r.hdr 2 (OutCursor.leBytes 2 r.hdrSize)
+
+theorem rtHdrFor_len (r : RadioTap) (hw : r.WF) (h16 : r.hdrSize < 65536) : Dot11.leAt (rtHdrFor r) 2 2 = r.hdrSize := by
+  unfold Dot11.leAt rtHdrFor
+  have := Eapol.patch_read r.hdr (OutCursor.leBytes 2 r.hdrSize) 2 (by rw [OutCursor.leBytes_length, hw.hdr]; omega)
+  rw [OutCursor.leBytes_length] at this
+  rw [this, leNat_leBytes]
+  omega
+
+/-- **C03 / RadioTap**: the parsing constructor on what `write_serialization` laid out — header with the derived `it_len`,
+    the options, the inner frame, and `trailer_size()` bytes of FCS — gives back the options and hands exactly the inner frame
+    to `Dot11::from_bytes`: the FLAGS field found by the same present-word walk announces the FCS the writer appended. -/
+theorem radiotap_reparse (r : RadioTap) (hw : r.WF) (hs : RtSide r) (inner tail : Bytes) (htl : tail.length = r.trl)
+    (h4 : 4 ≤ inner.length + tail.length) :
+    RadioTap.parse (rtHdrFor r ++ (r.payload ++ (inner ++ tail))) =
+      .ok (⟨rtHdrFor r, r.payload⟩, if inner.length != 0 then .cls "Dot11*" inner false else .none) := by
+  obtain ⟨hpl4, hpl16⟩ := hs.len
+  obtain ⟨t, ht, _⟩ := hw.trl
+  have htrl : r.trl = t := by simp only [RadioTap.trl, ht]
+  rw [htrl] at htl
+  obtain ⟨p0, p, hi0, hsk, hnof, hf⟩ := trlOut_inv r t ht
+  have hhl : (rtHdrFor r).length = 4 := by unfold rtHdrFor; rw [Dot11.patch_length]; exact hw.hdr
+  have hlen := rtHdrFor_len r hw (by simp only [RadioTap.hdrSize]; omega)
+  have hhs : r.hdrSize = 4 + r.payload.length := rfl
+  unfold RadioTap.parse
+  have r1 := App.ofBytes_read_append (rtHdrFor r) (r.payload ++ (inner ++ tail))
+  rw [hhl] at r1
+  simp only [r1, Out.bind_ok, hlen, hhs]
+  have hc8 : ¬ 4 + r.payload.length < 8 := by omega
+  have hsz : (Cursor.ofBytes (r.payload ++ (inner ++ tail))).size = r.payload.length + (inner.length + tail.length) := by
+    simp [Cursor.ofBytes]
+  have hfit : ¬ 4 + r.payload.length - 4 + 4 > (Cursor.ofBytes (r.payload ++ (inner ++ tail))).size := by rw [hsz]; omega
+  rw [if_neg hc8, if_neg hfit]
+  have e4 : 4 + r.payload.length - 4 = r.payload.length := by omega
+  rw [e4, App.ofBytes_peek_append, App.ofBytes_skip_append]
+  simp only [hi0, hsk, Out.bind_ok]
+  have hsz2 : (Cursor.ofBytes (inner ++ tail)).size = inner.length + tail.length := by simp [Cursor.ofBytes]
+  -- the hand-over to Dot11::from_bytes, once the number of bytes is known
+  have hfin : ∀ total, total = inner.length →
+      (if (total != 0) = true then
+        (Cursor.peek "RadioTap::RadioTap Dot11::from_bytes" (Cursor.ofBytes (inner ++ tail)) 0 total >>= fun i =>
+          (pure ((⟨rtHdrFor r, r.payload⟩ : RadioTap), Inner.cls "Dot11*" i false) : Out (RadioTap × Inner)))
+      else pure (⟨rtHdrFor r, r.payload⟩, Inner.none)) =
+      .ok (⟨rtHdrFor r, r.payload⟩, if inner.length != 0 then .cls "Dot11*" inner false else .none) := by
+    intro total htot
+    subst htot
+    by_cases hz : inner.length = 0
+    · have : (inner.length != 0) = false := by simp [hz]
+      simp [this]
+    · have : (inner.length != 0) = true := by simp [hz]
+      simp only [this, if_true, App.ofBytes_peek_append, Out.bind_ok, pure]
+  cases hpf : p.hasFields with
+  | false =>
+    have := hnof hpf
+    simp only [Bool.false_eq_true, if_false, Out.pure_eq, Out.bind_ok, hsz2]
+    exact hfin _ (by omega)
+  | true =>
+    obtain ⟨fv, hfv, htv⟩ := hf hpf
+    have hbad := hs.flags p0 p fv hi0 hsk hpf hfv
+    simp only [if_true, rd, hfv, Out.bind_ok, hsz2]
+    by_cases hfcs : (fv.toNat / 16 % 2 == 1) = true
+    · rw [if_pos hfcs] at htv
+      have hb6 : ¬ (fv.toNat / 64 % 2 == 1) = true := by
+        intro h6
+        exact hbad ⟨by simpa using hfcs, by simpa using h6⟩
+      rw [if_pos hfcs, if_neg (by omega), if_neg hb6]
+      simp only [Out.pure_eq, Out.bind_ok]
+      exact hfin _ (by omega)
+    · rw [if_neg hfcs] at htv
+      rw [if_neg hfcs]
+      simp only [Out.pure_eq, Out.bind_ok]
+      exact hfin _ (by omega)
+
+
+theorem parseOne_radiotap (b : Bytes) (t : RadioTap) (i : Inner) (h : RadioTap.parse b = .ok (t, i)) :
+    parseOne "RadioTap" b = .ok (.wifi (.radiotap t), i) := by
+  apply parseOne_wifi _ b _ i (by decide)
+  show (RadioTap.parse b >>= fun (r, i) => pure (Wifi.Obj.radiotap r, i)) = _
+  rw [h]; rfl
+
+theorem radiotap_view_of (b : Bool) (t : RadioTap) :
+    layerView b (.wifi (.radiotap ⟨rtHdrFor t, t.payload⟩)) = layerView b (.wifi (.radiotap t)) := by
+  have h0 : Wifi.byteAt (rtHdrFor t) 0 = Wifi.byteAt t.hdr 0 := patch_byteAt _ _ 2 0 (.inl (by omega))
+  have h1 : Wifi.byteAt (rtHdrFor t) 1 = Wifi.byteAt t.hdr 1 := patch_byteAt _ _ 2 1 (.inl (by omega))
+  simp [layerView, AnyObj.info, Wifi.info, RadioTap.fields, Fields.view, h0, h1]
+
+/-- what can follow RadioTap -/
+theorem radiotap_link_cases (t : RadioTap) (os : List AnyObj) (h : LinkAll (.wifi (.radiotap t)) os) :
+    (os = [] ∧ t.trl = 4) ∨ ∃ d r, os = .wifi (.dot11 d) :: r ∧ Dot11.dispatch (Wifi.byteAt d.hdr 0) = d.cls := by
+  cases hnx : nextA os with
+  | none => exact .inl ⟨nextA_none hnx, by simpa only [LinkAll, hnx] using h⟩
+  | raw p => simp only [LinkAll, hnx] at h
+  | bad => simp only [LinkAll, hnx] at h
+  | obj y r =>
+    have hos := (nextA_obj hnx).1
+    cases y with
+    | wifi z =>
+      cases z with
+      | dot11 d => exact .inr ⟨d, r, hos, by simpa only [LinkAll, hnx] using h⟩
+      | _ => simp only [LinkAll, hnx] at h
+    | _ => simp only [LinkAll, hnx] at h
+
+theorem dot11_size_ge (d : Dot11) (r : List AnyObj) : 10 ≤ sizeOfStack (.wifi (.dot11 d) :: r) := by
+  have : sizeOfStack (.wifi (.dot11 d) :: r) = d.hdrSize + 0 + sizeOfStack r := by
+    simp [sizeOfStack, infos, AnyObj.hdr, AnyObj.trl, Wifi.hdr, Wifi.trl]
+  rw [this]
+  unfold Dot11.hdrSize
+  simp only
+  omega
+
+/-- **RadioTap step** (entry class): header with the derived length, the same present-word walk on the same options, the FCS
+    trailer written behind the Dot11 frame and stripped again -/
+theorem radiotap_step (ps : List LayerInfo) (t : RadioTap) (os : List AnyObj) (hw : t.WF) (hside : RtSide t)
+    (hlink : LinkAll (.wifi (.radiotap t)) os) (region io : Bytes)
+    (hlen : region.length = t.hdrSize + sizeOfStack os + t.trl)
+    (hio : (region.drop t.hdrSize).take (sizeOfStack os) = io) (hiol : io.length = sizeOfStack os) :
+    ∃ out x' inner, t.write (cxOf ps os) region = .ok out ∧ out.length = region.length ∧
+      parseOne "RadioTap" out = .ok (x', inner) ∧
+      layerView false x' = layerView false (.wifi (.radiotap t)) ∧
+      StepInnerA (.wifi (.radiotap t)) os io t.trl x' inner := by
+  rcases radiotap_write_eq (cxOf ps os) t hw region (by rw [cxOf_innerSizeA]; exact hlen) with ⟨tail, hwr, htl⟩
+  rw [cxOf_innerSizeA, hio] at hwr
+  have hhl : (rtHdrFor t).length = 4 := by unfold rtHdrFor; rw [Dot11.patch_length]; exact hw.hdr
+  have hcases := radiotap_link_cases t os hlink
+  have h4 : 4 ≤ io.length + tail.length := by
+    rcases hcases with ⟨_, h⟩ | ⟨d, r, rfl, _⟩
+    · omega
+    · have := dot11_size_ge d r; omega
+  have hp := radiotap_reparse t hw hside io tail htl h4
+  refine ⟨_, .wifi (.radiotap ⟨rtHdrFor t, t.payload⟩), _, hwr, ?_, parseOne_radiotap _ _ _ hp, radiotap_view_of false t, ?_⟩
+  · have hhl' : (Dot11.patch t.hdr 2 (OutCursor.leBytes 2 t.hdrSize)).length = 4 := hhl
+    simp only [List.length_append, hhl', hiol, htl]
+    have : t.hdrSize = 4 + t.payload.length := rfl
+    omega
+  · rcases hcases with ⟨rfl, _⟩ | ⟨d, r, rfl, hdisp⟩
+    · have : io = [] := List.eq_nil_of_length_eq_zero (by rw [hiol]; rfl)
+      subst this
+      exact none_stepInner _ _ [] [] _ rfl rfl
+    · have hne : (io.length != 0) = true := by
+        have := dot11_size_ge d r
+        simp only [bne_iff_ne, ne_eq]; omega
+      rw [hne]
+      exact stepInnerA_objN _ _ (.wifi (.dot11 d)) r io _ 0 _ "Dot11*" false rfl rfl (by simp) (.inr ⟨rfl, hdisp⟩) (.inl rfl)
+
 end Tins.Wire.ChainAll
